@@ -981,6 +981,9 @@ Error RALocalAllocator::alloc_instruction(InstNode* node) noexcept {
 
                 RAWorkReg* work_reg = consecutive_regs[i]->work_reg();
                 score += uint32_t(work_reg->home_reg_id() == consecutive_index);
+
+                // Prefer registers that are not occupied, otherwise the occupant has to be spilled.
+                score += uint32_t(!Support::bit_test(live_regs, consecutive_index)) * 2;
               }
 
               if (score > best_score) {
@@ -998,6 +1001,16 @@ Error RALocalAllocator::alloc_instruction(InstNode* node) noexcept {
             uint32_t consecutive_index = best_lead_reg + i;
             RATiedReg* tied_reg = consecutive_regs[i];
             tied_reg->set_out_id(consecutive_index);
+
+            // The registers of the list are written by the instruction - a virtual register that still lives in one of
+            // them (OUT and KILL registers were already unassigned) has to be spilled first, and no other OUT register
+            // can be allocated there.
+            RAWorkId live_work_id = _cur_assignment.phys_to_work_id(group, consecutive_index);
+            if (live_work_id != kBadWorkId) {
+              ASMJIT_PROPAGATE(on_spill_reg(group, work_reg_by_id(live_work_id), live_work_id, consecutive_index));
+              live_regs &= ~Support::bit_mask<RegMask>(consecutive_index);
+            }
+            avoid_regs |= Support::bit_mask<RegMask>(consecutive_index);
           }
         }
       }
